@@ -5,8 +5,9 @@
 (* DirFS.tla and evaluates the C13 clauses when Persist returns.           *)
 (* Events (ndjson, produced by bin/strace2trace from strace output plus    *)
 (* marker calls of the probe):                                             *)
-(*   call{size, pre}            Persist is about to be called; pre = length *)
-(*                              of the existing file or -1                 *)
+(*   call{size, pre, held}      Persist is about to be called; pre = length *)
+(*                              of the existing file or -1; held = a Load  *)
+(*                              of that file is still open (shared lock)   *)
 (*   open{p, creat, trunc, fd}  openat on path p ("item" or a temp name)   *)
 (*   ftruncate{fd, len}  write{fd, n}  pwrite{fd, n, off}  fsync{fd}       *)
 (*   close{fd}  unlink{p}  rename{from, to}                                *)
@@ -20,12 +21,13 @@ VARIABLES files,   \* path -> [exists, len, good]   (cache view)
           disks,   \* path -> same (what survives power loss)
           fds,     \* fd -> [p, off, synced]
           size,    \* size of the item of the current call
+          held,    \* length of the pre-existing file when a Load still holds it, else -1
           l, viol, calls
 
 TraceLog == ndJsonDeserialize(TraceFile)
 N == Len(TraceLog)
 Ev == TraceLog[l]
-vars == <<files, disks, fds, size, l, viol, calls>>
+vars == <<files, disks, fds, size, held, l, viol, calls>>
 
 NoFile == [exists |-> FALSE, len |-> 0, good |-> 0]
 Max2(a, b) == IF a > b THEN a ELSE b
@@ -37,7 +39,7 @@ Exact(F, sz) == F.exists /\ F.len = sz /\ F.good = sz
 Report(c) == PrintT(<<"VIOL", c, l, calls>>)
 AddViol(S) == viol \cup {<<c, l>> : c \in {x \in S : Report(x)}}
 
-Init == files = <<>> /\ disks = <<>> /\ fds = <<>> /\ size = 0 /\ l = 1 /\ viol = {} /\ calls = 0
+Init == files = <<>> /\ disks = <<>> /\ fds = <<>> /\ size = 0 /\ held = -1 /\ l = 1 /\ viol = {} /\ calls = 0
 
 Step(name) == l <= N /\ Ev.ev = name /\ l' = l + 1
 
@@ -45,7 +47,7 @@ TCall ==
   /\ Step("call")
   /\ LET pre == IF Ev.pre < 0 THEN NoFile ELSE [exists |-> TRUE, len |-> Ev.pre, good |-> 0]
      IN files' = ("item" :> pre) /\ disks' = ("item" :> pre)
-  /\ fds' = <<>> /\ size' = Ev.size /\ calls' = calls + 1 /\ viol' = viol
+  /\ fds' = <<>> /\ size' = Ev.size /\ held' = (IF Ev.held THEN Ev.pre ELSE -1) /\ calls' = calls + 1 /\ viol' = viol
 
 TOpen ==
   /\ Step("open")
@@ -56,7 +58,7 @@ TOpen ==
      IN /\ files' = Put(files, Ev.p, F2)
         /\ disks' = Put(disks, Ev.p, IF D0.exists \/ ~F2.exists THEN D0 ELSE [exists |-> TRUE, len |-> 0, good |-> 0])
   /\ fds' = Put(fds, Ev.fd, [p |-> Ev.p, off |-> 0, synced |-> FALSE])
-  /\ UNCHANGED <<size, calls, viol>>
+  /\ UNCHANGED <<size, held, calls, viol>>
 
 OnFd == Ev.fd \in DOMAIN fds
 TTruncate ==
@@ -65,7 +67,7 @@ TTruncate ==
      THEN LET p == fds[Ev.fd].p IN
           files' = Put(files, p, [files[p] EXCEPT !.len = Ev.len, !.good = Min2(files[p].good, Ev.len)])
      ELSE files' = files
-  /\ UNCHANGED <<disks, fds, size, calls, viol>>
+  /\ UNCHANGED <<disks, fds, size, held, calls, viol>>
 
 WriteAt(off, n) ==
   LET p == fds[Ev.fd].p
@@ -78,14 +80,14 @@ TWrite ==
      THEN /\ files' = WriteAt(fds[Ev.fd].off, Ev.n)
           /\ fds' = [fds EXCEPT ![Ev.fd].off = @ + Ev.n, ![Ev.fd].synced = FALSE]
      ELSE UNCHANGED <<files, fds>>
-  /\ UNCHANGED <<disks, size, calls, viol>>
+  /\ UNCHANGED <<disks, size, held, calls, viol>>
 TPWrite ==
   /\ Step("pwrite")
   /\ IF OnFd
      THEN /\ files' = WriteAt(Ev.off, Ev.n)
           /\ fds' = [fds EXCEPT ![Ev.fd].synced = FALSE]
      ELSE UNCHANGED <<files, fds>>
-  /\ UNCHANGED <<disks, size, calls, viol>>
+  /\ UNCHANGED <<disks, size, held, calls, viol>>
 
 TFsync ==
   /\ Step("fsync")
@@ -94,24 +96,24 @@ TFsync ==
           /\ disks' = Put(disks, p, files[p])
           /\ fds' = [fds EXCEPT ![Ev.fd].synced = TRUE]
      ELSE UNCHANGED <<disks, fds>>
-  /\ UNCHANGED <<files, size, calls, viol>>
+  /\ UNCHANGED <<files, size, held, calls, viol>>
 
 TClose ==
   /\ Step("close")
   /\ fds' = [x \in DOMAIN fds \ {Ev.fd} |-> fds[x]]
-  /\ UNCHANGED <<files, disks, size, calls, viol>>
+  /\ UNCHANGED <<files, disks, size, held, calls, viol>>
 
 TUnlink ==
   /\ Step("unlink")
   /\ files' = Put(files, Ev.p, NoFile) /\ disks' = Put(disks, Ev.p, NoFile)
-  /\ UNCHANGED <<fds, size, calls, viol>>
+  /\ UNCHANGED <<fds, size, held, calls, viol>>
 
 TRename ==
   /\ Step("rename")
   /\ files' = Put(Put(files, Ev.to, Get(files, Ev.from)), Ev.from, NoFile)
   /\ disks' = Put(Put(disks, Ev.to, Get(disks, Ev.from)), Ev.from, NoFile)
   /\ fds' = [x \in DOMAIN fds |-> IF fds[x].p = Ev.from THEN [fds[x] EXCEPT !.p = Ev.to] ELSE fds[x]]
-  /\ UNCHANGED <<size, calls, viol>>
+  /\ UNCHANGED <<size, held, calls, viol>>
 
 \* Persist returned: the C13 clauses
 TRet ==
@@ -122,8 +124,12 @@ TRet ==
           IF Ev.err = ""
           THEN (IF ~Exact(F, size) THEN {"C13_success_but_file_not_exact"} ELSE {})
                \cup (IF D # F \/ ~Exact(D, size) THEN {"C13_success_but_not_flushed_after_last_write"} ELSE {})
+          ELSE IF held >= 0
+          \* refused because the file is in use: the earlier item, reported persisted, is still all there
+          THEN (IF F # [exists |-> TRUE, len |-> held, good |-> 0] \/ D # F
+                THEN {"C13_refused_persist_damaged_the_file_in_use"} ELSE {})
           ELSE (IF F.exists THEN {"C13_failure_left_a_file"} ELSE {}))
-  /\ UNCHANGED <<files, disks, fds, size, calls>>
+  /\ UNCHANGED <<files, disks, fds, size, held, calls>>
 
 \* what the probe read back: binds the file-system model to the real one
 TAfter ==
@@ -132,7 +138,7 @@ TAfter ==
      IN viol' = AddViol(
           (IF F.exists # Ev.exists \/ (F.exists /\ F.len # Ev.size) THEN {"DIV_model_and_file_system_disagree"} ELSE {})
           \cup (IF F.exists /\ Ev.exists /\ (Exact(F, size) # Ev.equal) THEN {"DIV_model_and_file_content_disagree"} ELSE {}))
-  /\ UNCHANGED <<files, disks, fds, size, calls>>
+  /\ UNCHANGED <<files, disks, fds, size, held, calls>>
 
 Next == TCall \/ TOpen \/ TTruncate \/ TWrite \/ TPWrite \/ TFsync \/ TClose \/ TUnlink \/ TRename \/ TRet \/ TAfter
 TraceSpec == Init /\ [][Next]_vars
